@@ -291,6 +291,18 @@ int __wrap_getsockopt(int fd, int level, int name, void* val, socklen_t* len) {
 
 static size_t qsz(void) { return uv_stream_get_write_queue_size(&h.stream); }
 
+/* after a connect was accepted: the finished requests that wait in write_completed_queue for their
+ * callback (token o<id>,<id>...; nothing when the queue is empty) */
+static void print_completed_queue(void) {
+  struct uv__queue* q; int first = 1;
+  for (q = h.stream.write_completed_queue.next; q != &h.stream.write_completed_queue; q = q->next) {
+    uv_write_t* req = (uv_write_t*) ((char*) q - offsetof(uv_write_t, queue));
+    printf(first ? "o%d" : ",%d", ((struct wreq*) req)->id);
+    first = 0;
+  }
+  if (!first) printf(" ");
+}
+
 static void run_beh(void) {
   int k = cbn++;
   if (k < nbeh) { char* copy = strdup(beh[k]); do_ops(copy, 1); free(copy); }
@@ -396,11 +408,12 @@ static void do_ops(char* ops, int in_cb) {
       if (tcp) {
         r = uv_tcp_connect(&creqs[ncreq++], &h.tcp, (struct sockaddr*) (live ? &addr_live : &addr_dead), connect_cb);
         printf("K:%d ", r);
-        if (r == 0) connecting_h = 1;
+        if (r == 0) { connecting_h = 1; print_completed_queue(); }
       } else {
         uv_pipe_connect(&creqs[ncreq++], &h.pipe, live ? sock_path : path_dead, connect_cb);
         printf("K:0 ");
         connecting_h = 1;
+        print_completed_queue();
       }
       in_connect_call = 0;
       if (g_fd >= 0) { struct pollfd pf; pf.fd = g_fd; pf.events = POLLOUT; pf.revents = 0; poll(&pf, 1, 5000); }
